@@ -413,7 +413,14 @@ impl<'u> Tr<'u> {
                 };
                 Ok((raw(format!("{d}%{}", if ty == Ty::Z { "Z" } else { "N" })), ty))
             }
-            _ => self.err(sp, "unsupported literal (only integers and booleans)"),
+            Lit::Str(st) => {
+                let v = st.value();
+                if !v.chars().all(|c| c.is_ascii() && !c.is_ascii_control()) {
+                    return self.err(sp, "string literal with non-printable or non-ASCII characters");
+                }
+                Ok((raw(coq_string(&v)), Ty::Str))
+            }
+            _ => self.err(sp, "unsupported literal (only integers, booleans and ASCII strings)"),
         }
     }
 
@@ -433,7 +440,9 @@ impl<'u> Tr<'u> {
                         break;
                     }
                 }
-                Expr::MethodCall(m) if m.args.is_empty() && m.turbofish.is_none() => {
+                Expr::MethodCall(m)
+                    if (m.args.is_empty() || self.spec.observer_calls.iter().any(|c| m.method == c)) && m.turbofish.is_none() =>
+                {
                     segs.insert(0, format!("{}()", m.method));
                     cur = &m.receiver;
                     bases.push((cur, segs.clone()));
@@ -509,6 +518,20 @@ impl<'u> Tr<'u> {
                     _ => return self.err(sp, format!("arithmetic on {}", t.coq())),
                 };
                 Ok((app(f, vec![l, r]), t))
+            }
+            BinOp::Sub(_) if env.allow_sub => {
+                let (l, tl) = self.expr(&b.left, env, Some(&Ty::N))?;
+                let (r, trr) = self.expr(&b.right, env, Some(&Ty::N))?;
+                if tl != Ty::N || trr != Ty::N {
+                    return self.err(sp, "`-` on something other than unsigned integers");
+                }
+                self.notes.push(format!(
+                    "{}:{}: `{}` is N.sub (an underflow would panic: out of scope, like overflow)",
+                    self.cur_file,
+                    sp.start().line,
+                    norm(b)
+                ));
+                Ok((app("N.sub", vec![l, r]), Ty::N))
             }
             BinOp::Sub(_) => self.err(sp, "`-` (underflow would panic or wrap; only saturating_sub is in the subset)"),
             BinOp::Eq(_) | BinOp::Ne(_) => {
@@ -615,6 +638,10 @@ impl<'u> Tr<'u> {
         if self.spec.opaque_calls.iter().any(|k| *k == key) {
             return self.opaque_input(&key, sp);
         }
+        if self.spec.transparent_calls.iter().any(|k| *k == key || *k == segs[segs.len() - 1]) && !args.is_empty() {
+            self.notes.push(format!("transparent call: `{}(v, ..)` is `v` (what else it records is dropped)", segs[segs.len() - 1]));
+            return self.expr(args[0], env, hint);
+        }
         if segs.len() >= 2 && segs[segs.len() - 1] == "default" && args.is_empty() {
             let tn = key.split("::").next().unwrap_or("").to_owned();
             if !self.u.methods.contains_key(&(tn.clone(), "default".to_owned()))
@@ -639,6 +666,32 @@ impl<'u> Tr<'u> {
             Expr::Closure(c) if c.inputs.is_empty() && c.asyncness.is_none() => Ok(&c.body),
             _ => self.err(e.span(), "expected a closure without parameters"),
         }
+    }
+
+    /// `|x| body` / `|(a, b)| body` applied to the elements of a list: `(fun x => body)`
+    fn closure1(&mut self, e: &Expr, elem: &Ty, env: &Env, hint: Option<&Ty>) -> R<(G, Ty)> {
+        let c = match e {
+            Expr::Closure(c) if c.inputs.len() == 1 && c.asyncness.is_none() => c,
+            _ => return self.err(e.span(), "expected a closure with one parameter"),
+        };
+        let mut env2 = env.clone();
+        let pat = match &c.inputs[0] {
+            Pat::Type(pt) => &*pt.pat,
+            p => p,
+        };
+        let binder = match pat {
+            Pat::Tuple(_) => format!("'{}", self.pattern(pat, elem, &mut env2)?),
+            _ => self.pattern(pat, elem, &mut env2)?,
+        };
+        if contains_return_expr(&c.body) {
+            return self.err(c.body.span(), "`return` inside a closure argument");
+        }
+        // the closure is a function of its own: no threaded state of the enclosing block is visible as state
+        env2.vars.clear();
+        env2.local_state = None;
+        env2.mutating = false;
+        let (b, t) = self.tail_value(&c.body, &env2, hint)?;
+        Ok((raw(format!("(fun {binder} => {})", b.render(4))), t))
     }
 
     fn method_call(&mut self, m: &syn::ExprMethodCall, env: &Env, hint: Option<&Ty>) -> R<(G, Ty)> {
@@ -675,6 +728,34 @@ impl<'u> Tr<'u> {
                 Ok((app(if name == "min" { "N.min" } else { "N.max" }, vec![recv, a]), Ty::N))
             }
             (Ty::Duration, "is_zero", 0) => Ok((app("N.eqb", vec![recv, raw("0%N")]), Ty::Bool)),
+            (Ty::Option(_), "as_deref", 0) | (Ty::Option(_), "as_ref", 0) | (Ty::Option(_), "copied", 0) | (Ty::Option(_), "cloned", 0) => {
+                Ok((recv, rt.clone()))
+            }
+            (Ty::List(_), "iter", 0) | (Ty::List(_), "into_iter", 0) | (Ty::List(_), "copied", 0) | (Ty::List(_), "cloned", 0)
+            | (Ty::List(_), "collect", 0) | (Ty::List(_), "to_vec", 0) => Ok((recv, rt.clone())),
+            (Ty::List(inner), "values", 0) | (Ty::List(inner), "keys", 0) => match &**inner {
+                Ty::Tuple(kv) if kv.len() == 2 => {
+                    let (f, t) = if name == "values" { ("snd", kv[1].clone()) } else { ("fst", kv[0].clone()) };
+                    Ok((app("List.map", vec![raw(f), recv]), Ty::List(Box::new(t))))
+                }
+                _ => self.err(sp, format!("`{name}()` on a list that is not a map")),
+            },
+            (Ty::List(_), "count", 0) | (Ty::List(_), "len", 0) => Ok((app("N.of_nat", vec![app("List.length", vec![recv])]), Ty::N)),
+            (Ty::List(_), "is_empty", 0) => Ok((
+                G::Match(Box::new(recv), vec![("nil".into(), raw("true")), ("cons _ _".into(), raw("false"))]),
+                Ty::Bool,
+            )),
+            (Ty::List(inner), "filter", 1) => {
+                let (f, t) = self.closure1(args[0], inner, env, Some(&Ty::Bool))?;
+                if t != Ty::Bool {
+                    return self.err(sp, "`filter` with a closure that does not return a boolean");
+                }
+                Ok((app("List.filter", vec![f, recv]), rt.clone()))
+            }
+            (Ty::List(inner), "map", 1) => {
+                let (f, t) = self.closure1(args[0], inner, env, None)?;
+                Ok((app("List.map", vec![f, recv]), Ty::List(Box::new(t))))
+            }
             (Ty::Option(_), "is_some", 0) => Ok((
                 G::Match(Box::new(recv), vec![("Some _".into(), raw("true")), ("None".into(), raw("false"))]),
                 Ty::Bool,
@@ -731,7 +812,7 @@ impl<'u> Tr<'u> {
             return Ok(None);
         }
         let tn = match self.expr(&m.receiver, env, None) {
-            Ok((_, Ty::Struct(n))) | Ok((_, Ty::Enum(n))) => n,
+            Ok((_, Ty::Struct(n))) | Ok((_, Ty::Enum(n))) | Ok((_, Ty::Token(n))) => n,
             _ => return Ok(None),
         };
         let key = format!("{tn}::{}", m.method);
@@ -792,7 +873,7 @@ impl<'u> Tr<'u> {
         }
         let mut out = Vec::new();
         for (okey, n, t) in &fi.opaque {
-            let is_const = self.spec.opaque_consts.iter().any(|k| k == okey);
+            let is_const = self.spec.opaque_consts.iter().any(|k| k == okey) || okey == "unreachable!";
             let present = self.opaque.iter().any(|(k, _, _)| k.starts_with(&format!("{okey}@")));
             if present && !is_const {
                 return self.err(sp, format!("the opaque call `{okey}` is reached more than once (through `{key}`)"));
@@ -862,6 +943,10 @@ impl<'u> Tr<'u> {
     /// pure expression (no `return` inside)
     fn expr(&mut self, e: &Expr, env: &Env, hint: Option<&Ty>) -> R<(G, Ty)> {
         let sp = e.span();
+        if let Some(Ty::Omitted) = hint {
+            // a value of a type the spec leaves out: not looked at
+            return Ok((raw("tt"), Ty::Omitted));
+        }
         if let Expr::Field(_) | Expr::MethodCall(_) = e {
             // a declared free variable of a request (`runner_opts.no_tests`, `settings.retries()`)
             if let Some(b) = env.lookup(&norm(e)) {
@@ -974,10 +1059,31 @@ impl<'u> Tr<'u> {
                     self.err(sp, "cast other than between unsigned integer types")
                 }
             }
-            Expr::Macro(m) => self.macro_expr(&m.mac, env, sp),
+            Expr::Macro(m) => self.macro_expr(&m.mac, env, hint, sp),
+            Expr::Index(ix) => match &*ix.index {
+                // `&xs[..]`: the whole slice
+                Expr::Range(r) if r.start.is_none() && r.end.is_none() => self.expr(&ix.expr, env, hint),
+                _ => self.err(sp, format!("unsupported expression `{}`", {
+                    let s = norm(e);
+                    if s.len() > 80 { format!("{}...", &s[..80]) } else { s }
+                })),
+            },
+            Expr::Array(a) if a.elems.is_empty() => {
+                let t = match hint {
+                    Some(Ty::List(t)) => (**t).clone(),
+                    _ => Ty::Never,
+                };
+                Ok((raw("nil"), Ty::List(Box::new(t))))
+            }
             Expr::If(_) | Expr::Match(_) | Expr::Block(_) => {
                 if contains_return_expr(e) {
                     return self.err(sp, "`return` inside an expression that is not in tail position");
+                }
+                if env.events_enum.is_some() {
+                    // not a leaf of the closure: a plain value
+                    let mut e2 = env.clone();
+                    e2.events_enum = None;
+                    return self.tail_value(e, &e2, hint);
                 }
                 self.tail_value(e, env, hint)
             }
@@ -989,8 +1095,34 @@ impl<'u> Tr<'u> {
         }
     }
 
-    fn macro_expr(&mut self, mac: &syn::Macro, env: &Env, sp: Span) -> R<(G, Ty)> {
+    fn macro_expr(&mut self, mac: &syn::Macro, env: &Env, hint: Option<&Ty>, sp: Span) -> R<(G, Ty)> {
         let name = mac.path.segments.last().map(|s| s.ident.to_string()).unwrap_or_default();
+        if matches!(name.as_str(), "unreachable" | "panic" | "unimplemented") {
+            // a panic is not modelled: the value at such a position is an arbitrary input of the function
+            let t = match hint.cloned().or_else(|| env.ret.clone()) {
+                Some(t) if t != Ty::Never => t,
+                _ => return self.err(sp, format!("`{name}!` where the expected type is not known")),
+            };
+            let pname = "o_unreachable".to_owned();
+            if let Some((_, _, t0)) = self.opaque.iter().find(|(k, _, _)| k.starts_with("unreachable!@")) {
+                if *t0 != t {
+                    return self.err(sp, format!("`{name}!` at two positions of different types in one function"));
+                }
+            } else {
+                self.opaque.push((format!("unreachable!@{}", sp.start().line), pname.clone(), t.clone()));
+                self.notes.push(format!(
+                    "{}:{}: `{name}!(..)`: a panic is not modelled; the value at this position is the input `o_unreachable` of the generated function (lemmas hold for every such value)",
+                    self.cur_file,
+                    sp.start().line
+                ));
+            }
+            return Ok((raw(pname), t));
+        }
+        if matches!(name.as_str(), "format" | "vec") {
+            if let Some(Ty::Omitted) = hint {
+                return Ok((raw("tt"), Ty::Omitted));
+            }
+        }
         if name != "matches" {
             return self.err(sp, format!("unsupported macro `{name}!`"));
         }
